@@ -76,7 +76,7 @@ type c17Case struct {
 var (
 	c17Conds   = []string{c17OK, c17Fail, c17FailIfCx}
 	c17Thens   = []string{c17OK, c17Fail, c17FailIfCx, c17Nil}
-	c17Rolls   = []string{c17OK, c17Fail, c17Nil}
+	c17Rolls   = []string{c17OK, c17Fail, c17FailIfCx, c17Nil}
 	c17Cancels = []string{c17Never, c17Before, c17DurCond, c17Between, c17DurThen, c17DurRoll, c17AfterRet}
 	c17TTLs    = []string{c17TTLLong, c17TTLShort}
 )
@@ -159,7 +159,7 @@ func (r *c17Run) step(name, mode string, ctx context.Context, rec *c17Rec) error
 }
 
 func c17Enum(t *testing.T, c *vcore.Ctx) {
-	c.SetRule("every (form in {Txn, PCR}) x cond/prepare {ok, fail, fail-if-its-ctx-is-done} x then/commit {ok, fail, fail-if-its-ctx-is-done, nil} x rollback {ok, fail, nil (Txn only)} x " +
+	c.SetRule("every (form in {Txn, PCR}) x cond/prepare {ok, fail, fail-if-its-ctx-is-done} x then/commit {ok, fail, fail-if-its-ctx-is-done, nil} x rollback {ok, fail, fail-if-its-ctx-is-done (with the short ttl it outlives its own budget and returns a wrapped deadline error), nil (Txn only)} x " +
 		"caller cancellation {never, before the call, while cond is parked, between cond and then, while then is parked, while rollback is parked, after return} x ttl {10s, 100ms < 1s park}; " +
 		"each step parks 1 virtual second on a channel inside a synctest bubble; oracle over the observed step outcomes; " +
 		"non-trivial = at least one step failed or the cancellation point was reached (something other than the all-ok straight line); distinct by the full case")
